@@ -79,6 +79,10 @@ pub struct StubCfg {
     pub nodes: NodesMode,
     /// whether other stubs name this one
     pub listed: bool,
+    /// a node that was restarted: until the given instant it answers under this (old) id, from then
+    /// on under `id`. Other stubs always name it by `id`.
+    #[serde(default)]
+    pub old_id: Option<(Ms, [u8; 20])>,
 }
 
 impl StubCfg {
@@ -96,6 +100,7 @@ impl StubCfg {
             delay_ms: 0,
             nodes: NodesMode::Closest,
             listed: true,
+            old_id: None,
         }
     }
 }
@@ -281,6 +286,11 @@ impl Stub for StubWorld {
         };
         if let Some(&i) = self.index.get(&to) {
             let mut s = self.cfg.stubs[i].clone();
+            if let Some((until, old)) = s.old_id {
+                if now < until {
+                    s.id = old;
+                }
+            }
             if nth > 0 && matches!(s.nodes, NodesMode::ClosestPlusOnce(_)) {
                 s.nodes = NodesMode::Closest;
             }
